@@ -36,6 +36,12 @@ func expectedFuncs(c *gen.Case) map[string]bool {
 func c14Oracle(cr *caseRun) [][2]string {
 	var vs [][2]string
 	im := cr.Impl
+	for _, d := range cr.FlagDiffs {
+		// the twin run under -dry -log -print: a rejected input must stay rejected whatever the flags
+		if im.Status != 0 && !im.Panicked && strings.Contains(d.What, "exit status differs") {
+			vs = append(vs, [2]string{"rejected-input-accepted-under-other-flags", "the plain run exits " + d.Model + ", the same input under -dry -log -print exits " + d.Impl})
+		}
+	}
 	switch {
 	case im.Panicked:
 		vs = append(vs, [2]string{panicSignature(im.Stderr), "the tool panicked:\n" + trunc(im.Stderr, 600)})
